@@ -84,8 +84,10 @@ pub fn camel_name(stem: &str, rng: &mut Rng) -> String {
 
 /// snake_case field name around a stem
 pub fn snake_name(stem: &str, rng: &mut Rng) -> String {
-    match rng.below(5) {
+    match rng.below(6) {
         0 => stem.to_string(),
+        // single-letter words in front (`r_g_b`, `x_y_offset`): a run of capitals once converted
+        5 => format!("{}_{}_{}", rng.pick(&["r", "x", "u", "a"]), rng.pick(&["g", "y", "v", "b"]), stem),
         1 => format!("{}_{}", stem, word(rng)),
         2 => format!("{}_{}", word(rng), stem),
         3 => format!("{}_{}_{}", word(rng), stem, word(rng)),
@@ -127,11 +129,13 @@ pub struct TyCtx {
     pub allow_option: bool,
     pub allow_datetime: bool,
     pub allow_map: bool,
+    /// arrays of length 0 as well (`[T; 0]`: serde writes `[]`)
+    pub zero_len_arrays: bool,
 }
 
 impl Default for TyCtx {
     fn default() -> Self {
-        TyCtx { users: vec![], params: vec![], allow_unit: true, allow_wrappers: true, allow_arrays: true, allow_option: true, allow_datetime: false, allow_map: true }
+        TyCtx { users: vec![], params: vec![], allow_unit: true, allow_wrappers: true, allow_arrays: true, allow_option: true, allow_datetime: false, allow_map: true, zero_len_arrays: false }
     }
 }
 
@@ -201,7 +205,7 @@ pub fn gen_ty(rng: &mut Rng, cx: &TyCtx, depth: usize) -> Ty {
     }
     match *rng.pick(&kinds) {
         0 => Ty::Vec(Box::new(gen_ty(rng, cx, depth - 1))),
-        1 => Ty::Array(Box::new(gen_ty(rng, cx, depth - 1)), rng.range(1, 4)),
+        1 => Ty::Array(Box::new(gen_ty(rng, cx, depth - 1)), rng.range(if cx.zero_len_arrays { 0 } else { 1 }, 4)),
         2 => Ty::Slice(Box::new(gen_ty(rng, cx, depth - 1))),
         3 => Ty::Opt(Box::new(gen_ty(rng, cx, depth - 1))),
         4 => Ty::Map(Box::new(gen_key(rng)), Box::new(gen_ty(rng, cx, depth - 1))),
